@@ -57,6 +57,7 @@ type Obs struct {
 	JSONOk   bool     `json:"json_ok"`
 	Ms       int64    `json:"ms"`
 	Queries  int64    `json:"queries"`
+	Followup string   `json:"followup,omitempty"` // a healthy request sent AFTER this one that was not answered (family: what)
 }
 
 type Case struct {
@@ -73,7 +74,9 @@ type Case struct {
 	// bytes were written; with Tcp the request goes over a real connection that is reset after reading this many bytes
 	AbortAfter *int            `json:"abort_after,omitempty"`
 	Tcp        bool            `json:"tcp,omitempty"`
-	Ws         bool            `json:"ws,omitempty"` // with Tcp: a websocket client (live tail) that reads AbortAfter messages and drops the connection
+	Ws         bool            `json:"ws,omitempty"`   // with Tcp: a websocket client (live tail) that reads AbortAfter messages and drops the connection
+	Boot       Boot            `json:"boot"`           // faults of dbVersion's two bootstrap statements
+	Cold       bool            `json:"cold,omitempty"` // serve with a cold version cache (a database name never seen before)
 	Script     []ResultSet     `json:"script"`
 	Model      json.RawMessage `json:"model,omitempty"` // abstract description for the Coq model (nil = test-only case)
 	Obs        *Obs            `json:"obs,omitempty"`
@@ -356,10 +359,83 @@ func serveTCP(c *Case, req *http.Request, deadline time.Duration) (outcome strin
 	}
 }
 
+var coldSeq int64
+
+func setCache(cold bool) {
+	name := "verif"
+	if cold {
+		name = fmt.Sprintf("cold-%d-%d", os.Getpid(), atomic.AddInt64(&coldSeq, 1))
+	}
+	curDBName.Store(&name)
+}
+
+// ---- "keeps serving": after a request that met a fault, one healthy request per endpoint family must still be answered
+var probes = []*Case{
+	{Class: "probe/loki_range", Path: "/loki/api/v1/query_range", Params: []KV{{"query", `{a="b"}`}, {"start", "1700000040000000000"}, {"end", "1700000340000000000"}, {"limit", "10"}},
+		Script: []ResultSet{{Cols: 4, FailAfter: -1, Rows: [][]Cell{{{U: u64(1)}, {M: map[string]string{"a": "b"}}, {S: str("x")}, {I: i64(1700000041000000000)}}}}}},
+	{Class: "probe/loki_matrix", Path: "/loki/api/v1/query_range", Params: []KV{{"query", `rate({a="b"}[1m])`}, {"start", "1700000040000000000"}, {"end", "1700000340000000000"}, {"step", "15"}},
+		Script: []ResultSet{{Cols: 4, FailAfter: -1, Rows: [][]Cell{{{U: u64(1)}, {M: map[string]string{"a": "b"}}, {F: f64(2)}, {I: i64(1700000041000000000)}}}}}},
+	{Class: "probe/loki_labels", Path: "/loki/api/v1/labels", Script: []ResultSet{{Cols: 1, FailAfter: -1, Rows: [][]Cell{{{S: str("a")}}}}}},
+	{Class: "probe/loki_series", Path: "/loki/api/v1/series", Params: []KV{{"match[]", `{a="b"}`}, {"start", "1700000040000000000"}, {"end", "1700000340000000000"}},
+		Script: []ResultSet{{Cols: 1, FailAfter: -1, Rows: [][]Cell{{{S: str(`{"a":"b"}`)}}}}}},
+	{Class: "probe/prom_labels", Path: "/api/v1/labels", Script: []ResultSet{{Cols: 1, FailAfter: -1, Rows: [][]Cell{{{S: str("a")}}}}}},
+	{Class: "probe/tempo_tags", Path: "/api/search/tags", Script: []ResultSet{{Cols: 1, FailAfter: -1, Rows: [][]Cell{{{S: str("a")}}}}}},
+	{Class: "probe/tempo_search", Path: "/api/search", Params: []KV{{"tags", "a=b"}, {"start", "1700000040"}, {"end", "1700000340"}},
+		Script: []ResultSet{{Cols: 5, FailAfter: -1}}},
+	{Class: "probe/tempo_trace", Path: "/api/traces/0123456789abcdef0123456789abcdef",
+		Script: []ResultSet{{Cols: 7, FailAfter: -1, Rows: [][]Cell{{{S: str("0123456789abcdef")}, {S: str("01234567")}, {S: str("")}, {I: i64(1700000040000000000)}, {I: i64(1000)}, {I: i64(1)}, {S: str(zipOK)}}}}}},
+}
+
+func faulted(c *Case) bool {
+	if c.Boot.Settings != "" || c.Boot.Tables != "" || c.AbortAfter != nil {
+		return true
+	}
+	for _, rs := range c.Script {
+		if rs.QueryErr || rs.FailAfter >= 0 {
+			return true
+		}
+	}
+	return false
+}
+
+// followUp serves the probes (first with a cold version cache, then warm) and reports the first one that is not answered
+// with a 200 within the deadline; "" = the process keeps serving.
+func followUp(deadline time.Duration) string {
+	for round, cold := range []bool{true, false} {
+		for _, p := range probes {
+			if round == 1 && p.Class != "probe/loki_range" && p.Class != "probe/tempo_search" {
+				continue // the warm round only repeats the users of the version cache
+			}
+			curScript.Store(&scriptT{sets: p.Script})
+			setCache(cold)
+			ctx, cancel := context.WithCancel(context.Background())
+			req := buildRequest(p, ctx)
+			rec := httptest.NewRecorder()
+			done := make(chan string, 1)
+			go runInProcess(rec, req, done)
+			select {
+			case pn := <-done:
+				cancel()
+				if pn != "" {
+					return p.Class + ": handler panic " + pn
+				}
+				if rec.Code != 200 {
+					return fmt.Sprintf("%s: status %d", p.Class, rec.Code)
+				}
+			case <-time.After(deadline):
+				cancel()
+				return p.Class + ": not answered (blocked)"
+			}
+		}
+	}
+	return ""
+}
+
 // runCase returns nil when the handler did not return within the deadline (caller must exit).
 func runCase(c *Case, deadline time.Duration) *Obs {
 	obs := &Obs{}
-	curScript.Store(&scriptT{sets: c.Script})
+	curScript.Store(&scriptT{sets: c.Script, boot: c.Boot})
+	setCache(c.Cold)
 	base := census()
 	rows0 := atomic.LoadInt64(&openRows)
 	q0 := atomic.LoadInt64(&queriesSeen)
@@ -509,7 +585,14 @@ func worker(casesPath, outPath string, deadline time.Duration, memMB uint64) {
 		id := c.ID
 		put(marker{Start: &id})
 		obs := runCase(c, deadline)
+		if obs.Outcome != "hang" && faulted(c) {
+			obs.Followup = followUp(1500 * time.Millisecond)
+		}
 		put(marker{ID: &id, Obs: obs})
+		if strings.HasSuffix(obs.Followup, "(blocked)") {
+			f.Close()
+			os.Exit(3) // a handler of the follow-up is still blocked: fresh process for the rest
+		}
 		var ms runtime.MemStats
 		runtime.ReadMemStats(&ms)
 		if ms.HeapAlloc > 256<<20 {
@@ -599,7 +682,7 @@ func runBatch(self string, batch []*Case, dir string, tag string, deadline time.
 		var nr []*Case
 		hangs := 0
 		for _, c := range batch {
-			if c.Obs != nil && c.Obs.Outcome == "hang" {
+			if c.Obs != nil && (c.Obs.Outcome == "hang" || strings.HasSuffix(c.Obs.Followup, "(blocked)")) {
 				hangs++
 			}
 		}
